@@ -244,7 +244,7 @@ def run(ctx, prop):
     for r0 in list(runs):
         why0 = runfam[r0['id']][1]
         fam0 = runfam[r0['id']][0]['name']
-        if (why0.startswith('W_') or why0 in ('random', 'rr', 'seq')) and not r0['extras'] and not r0['modeLocal'] and nag.get(fam0, 0) < ctx.pick(50, 250):
+        if (why0.startswith('W_') or why0 in ('random', 'rr', 'seq')) and not r0['extras'] and not r0['modeLocal'] and nag.get(fam0, 0) < ctx.pick(130, 400):
             nag[fam0] = nag.get(fam0, 0) + 1
             rid = len(runs) + 1
             r1 = dict(r0, id=rid, aged=True, seed=rng.randrange(1 << 30))
